@@ -1,0 +1,24 @@
+//go:build verif
+
+// Contracts for the govc verifier (/verif). Comment-only; compiled only with -tags verif.
+// blocksOK / blocksOKs are defined in /verif/specs/textdoc.ghost.
+
+package english
+
+//@ func (*NumWordsRulesClassifier).classify(prev, current, next)
+//@   requires f != nil && current != nil
+//@   assigns webdoc.TextBlock.isContent
+
+//@ func (*NumWordsRulesClassifier).Process(doc)
+//@   requires f != nil && blocksOK(doc)
+//@   ensures blocksOK(doc)
+//@   loop 0 invariant blocksOKs(textBlocks) && textBlocks == old(doc.TextBlocks) && doc != nil
+
+//@ func (*TerminatingBlocksFinder).isTerminating(tb)
+//@   requires f != nil && tb != nil
+//@   assigns nothing
+
+//@ func (*TerminatingBlocksFinder).Process(doc)
+//@   requires f != nil && blocksOK(doc)
+//@   ensures blocksOK(doc)
+//@   loop 0 invariant blocksOK(doc) && doc.TextBlocks == old(doc.TextBlocks)
